@@ -36,7 +36,8 @@ ASSUMPTIONS = [
     'players whose chips nobody can match (effective stack 0 at the start of a round) are skipped',
     'the opener rule is R-OPEN (also checked by C13); exotic non-monotone blind layouts are not generated',
 ]
-BIAS = dict(custom_num=2, chips=('int', 'int', 'fraction'), stack_pool=(1, 2, 3, 5, 8, 13, 20, 20, 40, 40, 100, 200))
+BIAS = dict(custom_num=2, chips=('int', 'int', 'fraction'), stack_pool=(1, 2, 3, 5, 8, 13, 20, 20, 40, 40, 100, 200),
+            rakes=('none', 'none', 'pct', 'nfnd'))      # the betting rules - the pot-sized raise too - do not depend on the rake
 PROFILE_POOL = ('aggressive', 'aggressive', 'balanced', 'shover', 'passive')
 
 
@@ -208,6 +209,7 @@ def run(ch, ctx):
     for k, v in mon.m.probes.items():
         ctx.count(k, v)
     ctx.count('structure_' + structure_code(st))
+    ctx.count('raked_tables', cfg['rake'] != 'none')
     ctx.count('cap_reached', mon.refusals.get('cap', 0) > 0)
     ctx.count('desynced_unspecified_opener', mon.desync)
     std_finish(world, ctx, 'r' in seq)
